@@ -119,8 +119,8 @@ func lz4Table(b []byte, max int) []lz4Entry {
 // buildModelCases: header-level mutants of small ZNG seeds.
 func buildModelCases(r *Rng, seeds []Seed, thorough bool) []ModelCase {
 	var out []ModelCase
-	budget := 1000
-	perSeed := 120
+	budget := 800
+	perSeed := 110
 	if thorough {
 		budget = 6000
 		perSeed = 500
